@@ -17,7 +17,6 @@ import (
 	col "github.com/craterdog/go-collection-framework/v4/collection"
 	stc "strconv"
 	sts "strings"
-	utf "unicode/utf8"
 )
 
 // CLASS ACCESS
@@ -600,9 +599,11 @@ func (v *parser_) parseIntrinsic() (
 	_, token, ok = v.parseToken(RuneToken, "")
 	if ok {
 		var matches = Scanner().MatchToken(RuneToken, token.GetValue())
-		var match, err = stc.Unquote(matches.GetValue(1))
+		// Decode the character between the quotes.  NOTE: Unquoting the whole
+		// literal turns a byte escape like '\xff' into an invalid string.
+		var rune_, _, _, err = stc.UnquoteChar(matches.GetValue(2), '\'')
 		v.checkLiteral(token, err)
-		intrinsic, _ = utf.DecodeRuneInString(match)
+		intrinsic = rune_
 		return intrinsic, token, true
 	}
 	_, token, ok = v.parseToken(StringToken, "")
